@@ -361,7 +361,34 @@ def handoff(check, prog):
                           't=[0.3, 0.2]), theory=Tmatrix()) is bit-identical to the '
                           'hologram of the bare core Sphere(n=1.59, r=0.3) and 0.26 '
                           'off the layered Lorenz-Mie result, without a warning')
-        leaf = select(vp, lambda t, C=C: isinstance_value(prog, t, subj_p, C))
+        def value_p(t, C=C, uniform=True):
+            # np.ndim(s.n), np.ndim(s.r) used as truth values; == 0 comparisons
+            if t[0] == 'call' and t[1] == 'numpy.ndim' and t[2] and \
+                    t[2][0][0] == 'attr' and t[2][0][1] == subj_p and \
+                    t[2][0][2] in ('n', 'r', 't'):
+                return not uniform
+            if t[0] == 'cmp' and t[1] in ('==', '!=') and t[3] == num(0) and \
+                    t[2][0] == 'call' and t[2][1] == 'numpy.ndim' and t[2][2] and \
+                    t[2][2][0][0] == 'attr' and t[2][2][0][1] == subj_p:
+                return uniform if t[1] == '==' else not uniform
+            if t[0] == 'call' and t[1] == 'numpy.isscalar' and t[2] and \
+                    t[2][0][0] == 'attr' and t[2][0][1] == subj_p:
+                return uniform
+            return isinstance_value(prog, t, subj_p, C)
+        leaf = select(vp, value_p)
+        if C and prog.is_subclass(C, SPHERE):
+            # ... and the hand-off itself refuses it: calc_scat_matrix goes to
+            # raw_scat_matrs without asking can_handle
+            leaf_l = select(vp, lambda t: value_p(t, uniform=False))
+            check.require(leaf_l is not None and leaf_l[0] == 'raise',
+                          'E6-layered-spheres-refused',
+                          'Tmatrix._parse_args [%s with layers]' % C.rpartition('.')[2],
+                          'the hand-off to the compiled code refuses a sphere whose '
+                          'index or radius is not a single number', loc,
+                          fail_detail='_parse_args has a branch for it: '
+                          'calc_scat_matrix(det, LayeredSphere(...), theory=Tmatrix()) '
+                          'does not consult can_handle and returns the scattering '
+                          'matrix of the bare core (f2py takes element 0 of the arrays)')
         refused = None if leaf is None else (leaf[0] == 'raise')
         name = C.rpartition('.')[2] if C else 'a non-scatterer'
         if acc:
